@@ -93,15 +93,33 @@ def inject_faults(ch, script, g, ended, netlistable):
     tainted = set()
     for fno in range(nfaults):
         label = f"F{fno}"
+        design = refmodel.load([op for op in out if op[0] in refmodel.DESIGN_OPS])
         # where: after some module's end, before the final calls
         ends = [i for i, op in enumerate(out) if op[0] == "end"]
         at = ch.pick(ends, "fault_at") + 1
         done = [op[1] for op in out[:at] if op[0] == "end"]
         victim_top = ch.pick(done, "victim_top")
         hier = sorted(hierarchy(design, [victim_top]))
-        kind = ch.weighted([(4, "boundary"), (3, "mid"), (3, "design")], "fkind")
+        kind = ch.weighted([(4, "boundary"), (3, "mid"), (3, "design"), (3, "parent_repair")], "fkind")
         block = []
         call = gen_call(ch, [victim_top], netlistable)
+        if kind == "parent_repair":
+            pr = plan_parent_repair(ch, out[:at], design, hier, fno)
+            if pr is None:
+                kind = "boundary"
+            else:
+                offender, parent, repair_ops = pr
+                block.append(["fault", "boundary", ch.rint(1, seams.DEFAULT_NPASSES, "pos"), offender, 0, label])
+                block.append(call)
+                if ch.chance(1, 2):
+                    block.append(list(call))  # retry unchanged first
+                block.append(["reset_elab"])
+                block += repair_ops
+                block.append(list(call))
+                block.append(gen_call(ch, [parent], netlistable))
+                out = out[:at] + block + out[at:]
+                tainted |= set(hier)
+                continue
         if kind == "boundary":
             offender = ch.pick(hier, "offender")
             pos = ch.rint(0, seams.DEFAULT_NPASSES, "pos")
@@ -152,6 +170,54 @@ def inject_faults(ch, script, g, ended, netlistable):
     # no late edits to modules a failed call may have left partially elaborated (contested ground)
     out = [op for op in out if op[0] != "expect_raise"]
     return out
+
+
+def plan_parent_repair(ch, prefix, design, hier, fno):
+    """The failure happens in a sub-module M; afterwards the designer edits M's *parent* P in
+    place: the instance of M is re-assigned to an instance of a clone of M (so P no longer
+    contains the offending module) and an instance array is added to P.  P was rewritten by
+    the passes that ran before the failure; a later call must refuse it or treat it exactly
+    as a fresh process treats the edited design - never export it half-elaborated."""
+    cands = []
+    for p in hier:
+        pm = design.mods[p]
+        if pm.style == "gen":
+            continue
+        for iname, info in pm.insts.items():
+            if info["kind"] != "inst" or info["target"][0] != "mod":
+                continue
+            m = info["target"][1]
+            if design.mods[m].style == "gen":
+                continue
+            # no live port reference may involve this instance
+            flat = str(pm.conns)
+            if f"['pr', '{iname}'" in flat:
+                continue
+            cands.append((p, iname, m))
+    if not cands:
+        return None
+    parent, iname, offender = ch.pick(cands, "prcand")
+    clone = 500 + fno
+    ops = []
+    for op in prefix:
+        if op[0] in refmodel.DESIGN_OPS and len(op) > 1 and op[1] == offender and op[0] not in ("bundle", "ext"):
+            cop = list(op)
+            cop[1] = clone
+            if op[0] == "module":
+                cop[2] = f"{op[2]}c{fno}"
+            ops.append(cop)
+    conns = dict(design.mods[parent].conns[iname])
+    ops.append(["reinst", parent, iname, ["mod", clone], "setattr", conns])
+    # plus new content that needs the early passes: an instance array wired to fresh signals
+    xports = design.exts[0]["ports"]
+    n = ch.rint(2, 3, "prn")
+    aconns = {}
+    for pname, w, _d in xports:
+        sname = f"zr{fno}_{pname}"
+        ops.append(["sig", parent, sname, w * (n if ch.chance(1, 2) else 1), "i", "n"])
+        aconns[pname] = ["s", sname]
+    ops.append(["arr", parent, f"zarr{fno}", ["ext", 0, {"a": 900 + fno}], n, "ctor", aconns])
+    return offender, parent, ops
 
 
 def plant_width_fault(ch, prefix, design, hier, fno=0):
@@ -342,7 +408,7 @@ def run(scn):
     fresh_cache = {}
     first_error = {}  # targets tuple -> exc of the first failure
     retry_state = {}  # call key -> (exc, (design version, installed elaborator))
-    tainted = set()  # module ids that contain an offending module
+    refusable = set()  # offending modules and the modules that contained one when it failed
     offenders = set()
     installed = None  # the currently installed fault op
     planted = {}  # mid -> True while a planted design fault is live (approximation: from script)
@@ -388,19 +454,22 @@ def run(scn):
         if "build_exc" in f:
             res["discard"] = f"fresh build failed: {f['build_exc']}"
             return res
-        hier = hierarchy(design_at(ops, k), op[1])
-        contains_offender = bool(hier & offenders)
+        d_now = design_at(ops, k)
+        hier = hierarchy(d_now, op[1])
+        contains_offender = bool(hier & (offenders | refusable))
         if o.get("not_closed"):
             res["findings"].append({"prop": "C06", "clause": "closed", "detail": o["not_closed"]})
         if o.get("fault_fired"):
             res["faults"]["raised:" + installed[1]] = res["faults"].get("raised:" + installed[1], 0) + 1 if installed else 1
             if installed and installed[1] == "boundary":
                 offenders.add(installed[3])
+                refusable |= {x for x in hier if installed[3] in hierarchy(d_now, [x])}
                 res["faults"][f"raised:boundary:pos{installed[2]}"] = res["faults"].get(f"raised:boundary:pos{installed[2]}", 0) + 1
             else:
                 # mid-pass fault: the module being rewritten is not known statically; every
                 # module of this call's hierarchy may be the half-rewritten one
                 offenders |= hier
+                refusable |= hier
             failed_calls += 1
         # ---- verdicts
         if o["ok"]:
@@ -418,6 +487,11 @@ def run(scn):
                 res["findings"].append({"prop": prop if mode == "c08" else "C07", "clause": "accepted-where-fresh-rejects", "detail": [f"call #{k} {op} succeeded; a fresh process raises {f['exc']}"], "at": k})
         else:
             exc = o["exc"]
+            # every module of this call that contained an offending / refusable module when the call
+            # failed was on the failing path and may be refused from now on
+            if contains_offender:
+                bad_now = offenders | refusable
+                refusable |= {x for x in hier if bad_now & hierarchy(d_now, [x])}
             if f["ok"]:
                 if mode == "c07":
                     res["findings"].append({"prop": "C07", "clause": "raises-where-fresh-succeeds", "detail": [f"call #{k} {op} raised {exc}; a fresh process succeeds"], "at": k})
@@ -457,7 +531,9 @@ def run(scn):
                 retry_state[key] = (exc, ver)
                 if not o.get("fault_fired"):
                     failed_calls += 1
-                    offenders |= _design_offenders(ops, k, hier)
+                    bad_mods = _design_offenders(ops, k, hier)
+                    offenders |= bad_mods
+                    refusable |= {x for x in hier if bad_mods & hierarchy(d_now, [x])}
                 first_error.setdefault(key, exc)
     res["faults"]["sessions_with_failure"] = 1 if failed_calls else 0
     res["faults"]["sessions_fault_free"] = 0 if failed_calls else 1
